@@ -647,11 +647,16 @@ int verif_case(const uint8_t *tape, size_t tlen, Info *info) {
     if (!session) { info->inconclusive = true; goto teardown; }
     int prefix = (int)t.pick({3, 3, 3, 2});   // 0 plain GET  1 observe GET  2 block-wise PUT  3 GET that will be answered block-wise
     std::vector<uint8_t> app_token = {0xa1, 0xa2, 0xa3};
+    // (last tape bytes, longer tapes) the block-wise upload is a FETCH with Observe (libcoap keeps one token per block for it), and the peer's
+    // 2.31 Continue may name a block further ahead than the one just sent
+    bool fetch_obs = prefix == 2 && tlen >= 48 && (tape[tlen - 1] & 1);
+    unsigned skip_ahead = fetch_obs || (tlen >= 48 && (tape[tlen - 1] & 2)) ? tape[tlen - 2] % 4 : 0;
     {
-      coap_pdu_t *pdu = coap_new_pdu(t.flag() ? COAP_MESSAGE_CON : COAP_MESSAGE_NON, prefix == 2 ? COAP_REQUEST_CODE_PUT : COAP_REQUEST_CODE_GET, session);
+      coap_pdu_t *pdu = coap_new_pdu(t.flag() ? COAP_MESSAGE_CON : COAP_MESSAGE_NON, fetch_obs ? COAP_REQUEST_CODE_FETCH : prefix == 2 ? COAP_REQUEST_CODE_PUT : COAP_REQUEST_CODE_GET, session);
       coap_add_token(pdu, app_token.size(), app_token.data());
-      if (prefix == 1) coap_add_option(pdu, COAP_OPTION_OBSERVE, 0, nullptr);
+      if (prefix == 1 || fetch_obs) coap_add_option(pdu, COAP_OPTION_OBSERVE, 0, nullptr);
       coap_add_option(pdu, COAP_OPTION_URI_PATH, 3, (const uint8_t *)"res");
+      if (fetch_obs) { uint8_t cf = 42; coap_add_option(pdu, COAP_OPTION_CONTENT_FORMAT, 1, &cf); }
       if (prefix == 2) {
         static std::vector<uint8_t> body(2500, 'u');
         coap_add_data_large_request(session, pdu, body.size(), body.data(), nullptr, nullptr);
@@ -660,7 +665,7 @@ int verif_case(const uint8_t *tape, size_t tlen, Info *info) {
     }
     w.run(w.now + 1, 4000);
     Addr cli = rx.empty() ? Addr::v4(10, 0, 0, 2, 40000) : rx[0].src;
-    snprintf(hb, sizeof hb, "client/UDP request=%s; ", prefix == 0 ? "GET" : prefix == 1 ? "GET+Observe" : prefix == 2 ? "PUT block-wise" : "GET (block-wise answer)");
+    snprintf(hb, sizeof hb, "client/UDP request=%s; ", prefix == 0 ? "GET" : prefix == 1 ? "GET+Observe" : prefix == 2 ? (fetch_obs ? "FETCH+Observe block-wise" : "PUT block-wise") : "GET (block-wise answer)");
     hist += hb;
     info->label(prefix == 0 ? "state:client-request" : prefix == 1 ? "state:client-observe" : prefix == 2 ? "state:client-block1" : "state:client-block2");
     unsigned n = t.range(1, 12);
@@ -681,7 +686,7 @@ int verif_case(const uint8_t *tape, size_t tlen, Info *info) {
           if (!rx.empty() && simh::parse(rx.back().data, &q)) {
             const ref::Opt *b1 = simh::find_opt(q, 27), *b2 = simh::find_opt(q, 23);
             m = ref::Msg(); m.type = q.type == 0 ? 2 : 1; m.mid = q.mid; m.token = q.token;
-            if (b1 && (simh::opt_uint(b1->val) & 8)) { m.code = 0x5f; add_opt(m, 27, b1->val); }
+            if (b1 && (simh::opt_uint(b1->val) & 8)) { m.code = 0x5f; add_opt(m, 27, simh::uint_opt(simh::opt_uint(b1->val) + (skip_ahead << 4))); }
             else if (prefix == 3 || b2) {
               unsigned num = b2 ? simh::opt_uint(b2->val) >> 4 : 0, szx = b2 ? simh::opt_uint(b2->val) & 7 : 2;
               if (szx > 6) szx = 6;
